@@ -133,6 +133,7 @@ type MachineStats struct {
 	Forks     int64
 	Cuts      int64
 	Funcs     map[string]int
+	ForkSites map[string]int
 }
 
 type Obs struct {
@@ -714,6 +715,7 @@ func (m *Machine) branch(cond *Term) bool {
 		alt := append(append([]Choice{}, m.prefix...), Choice{I: 1})
 		m.newWork = append(m.newWork, alt)
 		m.Stats.Forks++
+		m.forkSite("branch")
 	}
 	m.prefix = append(m.prefix, Choice{I: 0})
 	m.pc = append(m.pc, cond)
@@ -742,6 +744,7 @@ func (m *Machine) choose(n int, what string) int {
 		alt := append(append([]Choice{}, m.prefix...), Choice{I: i})
 		m.newWork = append(m.newWork, alt)
 		m.Stats.Forks++
+		m.forkSite("choose:" + what)
 	}
 	m.prefix = append(m.prefix, Choice{I: 0})
 	return 0
@@ -816,6 +819,7 @@ func (m *Machine) concretize(t *Term, what string) uint64 {
 				alt := append(append([]Choice{}, m.prefix...), Choice{I: 1, V: v})
 				m.newWork = append(m.newWork, alt)
 				m.Stats.Forks++
+				m.forkSite("concretize:" + what)
 			}
 			m.prefix = append(m.prefix, ch)
 		}
@@ -834,4 +838,19 @@ func (m *Machine) concreteInt(t *Term, what string) int64 {
 
 func constantBool(c *ssa.Const) bool {
 	return c.Value.String() == "true"
+}
+
+func (m *Machine) forkSite(kind string) {
+	if m.Stats.ForkSites == nil {
+		return
+	}
+	fr := m.curFrame
+	w := "?"
+	if fr != nil {
+		w = fr.fn.String()
+		if fr.caller != nil {
+			w += " <- " + fr.caller.fn.String()
+		}
+	}
+	m.Stats.ForkSites[kind+" @ "+w]++
 }
